@@ -114,10 +114,101 @@ def sweep(tier="quick", seed=0, unsupported=()):
         f = stay_in_range(seed + s)
         if f is not None and not any(x["what"] == f["what"] for x in failures):
             failures.append(f)
-    return {"standins": [{"function": "Updater/Accumulator on a real connection: random interleavings of contributions, reads, update(clear T/F), clear; half/full bounds; custom reduction; 400-step stay-in-range runs", "domain": f"{n} random op sequences of length 12 x 3 bounding modes", "cases": cases, "proved": False, "label": "bounded"}], "failures": failures}
+    names = [n for n in dir(F) if n.startswith("bound_")]
+    for nm in names:
+        for pv in (-1.5, -1.0, -0.5, 0.0, 0.5, 1.0, 1.5):
+            for L in ((1.0, -1.0) if ("upper" in nm or "lower" in nm) else (None,)):
+                cases += 1
+                m = {"p": pv, "u": 0.75, "pos": 0.75, "neg": 0.5, "max": 1.0, "min": -1.0, "rng": 2.0, "q": 2.0, "qu": 2.0, "ql": 3.0}
+                if L is not None:
+                    m["L"] = L
+                r = replay_bounding(nm, m)
+                if r["reproduced"] and not any(x["what"] == r["failure"]["what"] for x in failures):
+                    failures.append(r["failure"])
+    return {"standins": [{"function": "bound_* functions vs documented formulas on a grid that includes parameters exactly on a limit; Updater/Accumulator on a real connection: random interleavings of contributions, reads, update(clear T/F), clear; half/full bounds; custom reduction; 400-step stay-in-range runs", "domain": f"{n} random op sequences of length 12 x 3 bounding modes", "cases": cases, "proved": False, "label": "bounded"}], "failures": failures}
+
+
+
+def _fr(v, default=0.0):
+    """model value (int / float / 'a/b' string) -> float"""
+    from fractions import Fraction
+
+    if v is None:
+        return default
+    try:
+        return float(Fraction(str(v)))
+    except Exception:
+        try:
+            return float(v)
+        except Exception:
+            return default
+
+
+def replay_bounding(name, model):
+    """replays a counter-model of a `bounding.<function>` kernel contract on the REAL function (float64) against the
+    documented formula evaluated in Python, at the model's point and at the model's point moved onto each limit"""
+    fn = getattr(F, name)
+    half = "upper" in name or "lower" in name
+    P0 = _fr(model.get("p"))
+    pts = [P0]
+    if half:
+        L = _fr(model.get("L"), 1.0)
+        pts += [L]
+    else:
+        mx, mn = _fr(model.get("max"), 1.0), _fr(model.get("min"), -1.0)
+        pts += [mx, mn]
+    th = lambda x: 1.0 if x > 0 else 0.0  # noqa: E731   Theta of the sharp bounds as implemented: 0 at the limit itself
+    for pv in pts:
+        pt = torch.tensor([pv], dtype=torch.float64)
+        if half:
+            u = _fr(model.get("u"), 0.5)
+            kw, rng, q = {}, _fr(model.get("rng"), 2.0), _fr(model.get("q"), 2.0)
+            d = (L - pv) if "upper" in name else (pv - L)
+            if "scaled" in name:
+                kw["range"] = rng
+                d = d / rng
+            if "power" in name:
+                kw["power"] = q
+                if d < 0:
+                    continue
+                ref = d**q * u
+            elif "sharp" in name:
+                ref = th(d) * u
+            else:
+                ref = d * u
+            got = fn(pt, torch.tensor([u], dtype=torch.float64), L, **kw).item()
+            inp = dict(function=name, param=pv, update=u, limit=L, **kw)
+        else:
+            pos, neg = abs(_fr(model.get("pos"), 0.5)), abs(_fr(model.get("neg"), 0.25))
+            kw = {}
+            rng = mx - mn
+            du, dl = mx - pv, pv - mn
+            if "scaled" in name:
+                du, dl = du / rng, dl / rng
+            if "power" in name:
+                kw = dict(upper_power=max(1.0, _fr(model.get("qu"), 2.0)), lower_power=max(1.0, _fr(model.get("ql"), 2.0)))
+                if du < 0 or dl < 0:
+                    continue
+                ref = du ** kw["upper_power"] * pos - dl ** kw["lower_power"] * neg
+            elif "sharp" in name:
+                ref = th(du) * pos - th(dl) * neg
+            else:
+                ref = du * pos - dl * neg
+            got = fn(pt, torch.tensor([pos], dtype=torch.float64), torch.tensor([neg], dtype=torch.float64), mx, mn, **kw).item()
+            inp = dict(function=name, param=pv, pos=pos, neg=neg, max=mx, min=mn, **kw)
+        if abs(got - ref) > 1e-9 * max(1.0, abs(ref)):
+            return {"reproduced": True, "failure": {"what": f"C10/bounding/{name}", "input": inp, "expected": ref, "actual": got}, "concrete": inp}
+    return {"reproduced": False, "search": {"points_tried": len(pts)}}
 
 
 def replay(contract, label, model, note=""):
+    if contract.startswith("bounding."):
+        try:
+            r = replay_bounding(contract.split(".", 1)[1], model or {})
+            if r["reproduced"]:
+                return r
+        except Exception:
+            pass
     tried = 0
     for s in range(300):
         for bound in (None, "mult", "full_sharp"):
@@ -141,6 +232,10 @@ def replay(contract, label, model, note=""):
 
 def replay_native(rp):
     i = rp["input"]
+    if "function" in i:
+        m = {"p": i["param"], "u": i.get("update"), "pos": i.get("pos"), "neg": i.get("neg"), "L": i.get("limit"), "max": i.get("max"), "min": i.get("min"), "rng": i.get("range"), "q": i.get("power"), "qu": i.get("upper_power"), "ql": i.get("lower_power")}
+        r = replay_bounding(i["function"], {k: v for k, v in m.items() if v is not None})
+        return {"reproduced": r["reproduced"], "failure": r.get("failure")}
     if "ops" in i:
         for bound in (i.get("bound"),):
             f = run_sequence(i["seed"], bound=bound, reduction=(torch.mean if i.get("reduction") else None))
